@@ -1,5 +1,6 @@
-\* the full product: 3 policies x (copy none/current/expired x update ok/notification fails/snapshot fails/delta fails, 11 pairs) x RRDP on/off x rsync on/off x CA with/without rpkiNotify = 264 rows
+\* all histories of two runs: 3 policies x copy none/current/expired x update ok/notification fails/snapshot fails/delta fails per run x RRDP on/off x rsync on/off x CA with/without rpkiNotify
 SPECIFICATION Spec
-CONSTANT Variant = "as_documented"
-INVARIANTS C29_FollowsTable C29_RrdpOnlyIfAnnouncedAndEnabled
+CONSTANTS MaxRuns = 2
+  Variant = "as_documented"
+INVARIANTS CopyOnlyChangedBySuccess C29_FollowsTable C29_RrdpOnlyIfAnnouncedAndEnabled
 CHECK_DEADLOCK FALSE
